@@ -128,6 +128,16 @@ def run_unit(unit, workdir):
                 if any(l in c.get("lines", []) for l in alll):
                     cl = c
                     break
+            if cl is None and "postcondition" in d.message:
+                tcs = [c for c in i.clauses if c["kind"] == "trait-contract"]
+                if tcs:
+                    failed_line = ""
+                    for (ls, le, label, isprim) in d.lines:
+                        if label and "failed this postcondition" in label and 0 < ls <= len(lines_text):
+                            failed_line = lines_text[ls - 1].strip()
+                    cl = dict(tcs[0])
+                    cl["id"] = "trait-contract"
+                    cl["text"] = "trait-level contract clause: " + failed_line
             if cl is None:
                 cl = [c for c in i.clauses if c["kind"] == "safety"][0]
             snippet = ""
